@@ -270,3 +270,7 @@ Definition loops_positive (ops : list op) : Prop :=
 
 (** the instants t0 + i, t0 + 2i, ..., t0 + m*i *)
 Definition grid (t0 i : Z) (m : nat) : list Z := map (fun k => t0 + Z.of_nat k * i) (seq 1 m).
+
+(** [o] is a scheduling call of actor [a] with reference [ref] that reaches scheduleJob *)
+Definition is_sched (o : op) (a recv ref : bytes) (p : N) : Prop :=
+  (exists d, o = OOnce a recv ref d p) \/ (exists i, o = OLoop a recv ref i p) \/ o = OCron a recv ref true p.
